@@ -186,6 +186,30 @@ def f0():
 """ % s}, ["subv", "inner", "h", "hmod"]
 
 
+def T_constructor_parameter_names(s):
+    # a module variable with the name of a parameter of the constructor, read by another method
+    return {"main": HEAD + """
+scale = %(var)d
+offset = %(off)d
+
+class M(object):
+    def __init__(self, scale, offset=0):
+        self.k = scale
+
+    def run(self, x):
+        return term('M.run#%(m)d', self.k, scale, x)
+
+    def shifted(me):
+        return term('M.shifted', me.k, offset)
+
+def f1():
+    return term('f1', M(2).run(3), M(4, offset=1).shifted())
+
+def f0():
+    return dds.keep('/x/p', f1)
+""" % s}, ["var", "off", "m"]
+
+
 def T_fun_in_variable(s):
     return {"main": HEAD + """
 def h():
@@ -616,7 +640,7 @@ def f0():
 # explicit refusals of dds (DDSException with one of these codes): the construct is outside the supported subset
 REFUSALS = ("TYPE_NOT_SUPPORTED", "CONSTRUCT_NOT_SUPPORTED", "UNSUPPORTED_CALLABLE_TYPE", "AUTHORIZED_TYPE_NOT_UNDERSTOOD")
 
-TEMPLATES = [T_class_fresh, T_class_object_first, T_inheritance, T_staticmethod, T_import_forms, T_imports_in_bodies, T_fun_in_variable,
+TEMPLATES = [T_class_fresh, T_class_object_first, T_inheritance, T_staticmethod, T_import_forms, T_imports_in_bodies, T_constructor_parameter_names, T_fun_in_variable,
              T_nested_and_comprehension, T_default_from_variable, T_method_calls_function, T_data_function_chain,
              T_class_attribute_from_variable, T_init_calls_function, T_from_import_variable, T_class_in_submodule,
              T_generator_and_conditional_expression, T_function_as_default_argument, T_reexport_and_relative_imports,
